@@ -143,14 +143,42 @@ func resolveRolesG(a *A, rule string, groups string) *Roles {
 		for f := range reachableInPkg([]*ssa.Function{r.Stream}, w.Root) {
 			res := f.Signature.Results()
 			for i := 0; i < res.Len(); i++ {
-				if isBinlogEventChan(res.At(i).Type()) && f.Blocks != nil && r.StartDump == nil {
-					r.StartDump = f
+				if isBinlogEventChan(res.At(i).Type()) && f.Blocks != nil {
+					// the one that starts the reader goroutine, if the work is split over several
+					hasGo := false
+					instrs(f, func(in ssa.Instruction) {
+						if _, ok := in.(*ssa.Go); ok {
+							hasGo = true
+						}
+					})
+					if r.StartDump == nil || hasGo {
+						r.StartDump = f
+					}
 				}
 			}
 		}
 	}
 	if want("r") && !want("c") && !a.need(r.StartDump != nil, rule, "dump starter (function reachable from Stream returning <-chan BinlogEvent)") {
 		return nil
+	}
+	if want("r") && !want("c") {
+		// the dump starter may delegate the goroutine to a step function: take the one that holds the go statement
+		hasGo := func(f *ssa.Function) bool {
+			found := false
+			instrs(f, func(in ssa.Instruction) {
+				if _, ok := in.(*ssa.Go); ok {
+					found = true
+				}
+			})
+			return found
+		}
+		if !hasGo(r.StartDump) {
+			for f := range reachableInPkg([]*ssa.Function{r.StartDump}, w.Root) {
+				if f != r.StartDump && f.Parent() == nil && hasGo(f) {
+					r.StartDump = f
+				}
+			}
+		}
 	}
 	if want("c") && (!a.need(r.StartDump != nil, rule, "dump starter (callee of Stream returning <-chan BinlogEvent)") ||
 		!a.need(r.NewConn != nil, rule, "connection constructor (callee of Stream returning *slaveConnection)")) {
@@ -419,6 +447,37 @@ func resolveRolesG(a *A, rule string, groups string) *Roles {
 		} else {
 			r.LoopHead = r.RecvCall.Block()
 		}
+		// `var ev Event` assigned in one select case and used after the select: the uses see a phi of the received event
+		// and zero constants
+		if ex, ok := r.RawEv.(*ssa.Extract); ok && ex.Referrers() != nil {
+			var phis []*ssa.Phi
+			other := 0
+			for _, ref := range *ex.Referrers() {
+				switch x := ref.(type) {
+				case *ssa.Phi:
+					if len(phis) == 0 || phis[len(phis)-1] != x {
+						phis = append(phis, x)
+					}
+				case *ssa.DebugRef:
+				default:
+					other++
+				}
+			}
+			if other == 0 && len(phis) == 1 {
+				okPhi := true
+				for _, e := range phis[0].Edges {
+					if e == ssa.Value(ex) {
+						continue
+					}
+					if c, isC := e.(*ssa.Const); !isC || c.Value != nil {
+						okPhi = false
+					}
+				}
+				if okPhi {
+					r.RawEv = phis[0]
+				}
+			}
+		}
 		if !a.need(r.RawEv != nil, rule, "received event (extract of the parser select)") {
 			return nil
 		}
@@ -472,6 +531,26 @@ func resolveRolesG(a *A, rule string, groups string) *Roles {
 				}
 			}
 		})
+		if r.GoInstr == nil {
+			// the goroutine is started by a step function the dump starter calls
+			for f := range reachableInPkg([]*ssa.Function{r.StartDump}, w.Root) {
+				if f == r.StartDump || f.Parent() != nil {
+					continue
+				}
+				instrs(f, func(in ssa.Instruction) {
+					switch x := in.(type) {
+					case *ssa.Go:
+						if r.GoInstr == nil {
+							r.GoInstr = x
+						}
+					case *ssa.MakeChan:
+						if isBinlogEventChan(x.Type()) && r.EventChan == nil {
+							r.EventChan = x
+						}
+					}
+				})
+			}
+		}
 		if a.need(r.GoInstr != nil, rule, "go statement in the dump starter") {
 			switch v := r.GoInstr.Call.Value.(type) {
 			case *ssa.MakeClosure:
